@@ -1,12 +1,12 @@
 package main
 
 import (
-	"os"
 	"fmt"
 	"go/ast"
 	"go/constant"
 	"go/token"
 	"go/types"
+	"os"
 	"sort"
 	"strings"
 
@@ -1432,7 +1432,6 @@ func cssSanitiserReturns(c *Ctx, tp *packages.Package, fd *ast.FuncDecl, depth i
 	}
 	return
 }
-
 
 // quotedArm: the opening quotes the path accepted (HasPrefix(x, `"`) / `'` taken as true) and the union of the sets its
 // ContainsAny rejections ban.
